@@ -38,6 +38,8 @@ Apply(T, e, j, pre) ==
                                 [c \in Coals |-> IF c \in S THEN ValsOf(e)[c] ELSE pre.up[c]])
     [] e.op = "reset"    -> FreshTab({e.cs[x] : x \in 1..Len(e.cs)}, ValsOf(e))
     [] e.op = "compute"  -> Compute(T.objs[j].comp, T.objs[j].r, pre)
+    \* a copy of the object had a coalition revealed and its bounds computed, and was dropped: nothing happens to the object itself
+    [] e.op = "elsewhere" -> pre
 
 Close(a, b, tol)      == a - b <= tol /\ b - a <= tol
 ColClose(f, g, tol)   == \A c \in Coals : Close(f[c], g[c], tol)
@@ -58,7 +60,8 @@ StepClauses(T, i, j) ==
   IN  \* C08/C17: the game object follows the specification's action (refinement)
       UNION { Fail(p, "NoException_" \o e.op, j, e.tabs[j].exc = "") : p \in Props }
       \cup Fail("C08", "Refine_" \o e.op, j, (exact /\ e.tabs[j].exc = "") => post = Apply(T, e, j, pre))
-      \cup Fail("C01", "KnownExact", j, T.hasHidden = 1 => KnownExact(post, Arr(T.hidden)))
+      \* (while a second game is being loaded value by value into a re-used object the table is a mixture of two games: e.mix = 1)
+      \cup Fail("C01", "KnownExact", j, (T.hasHidden = 1 /\ e.mix = 0) => KnownExact(post, Arr(T.hidden)))
 
 \* ---- clauses evaluated after compute_bounds, for object j --------------------------------
 ComputeClauses(T, i, j) ==
